@@ -207,20 +207,30 @@ func c10Check(w *offWorker, line Path, out Paths, cfg strokeCfg) (string, string
 	return "", "", sawInside
 }
 
+var c10AllEnds = []clipper.EndType{clipper.Joined, clipper.Butt, clipper.SquareET, clipper.RoundET}
+
 func c10Scope(e enum.Embed, k, n int, deltas []float64, level int) *drv.Scope {
+	return c10ScopeET(e, k, n, deltas, c10AllEnds, level)
+}
+
+func c10ScopeET(e enum.Embed, k, n int, deltas []float64, ends []clipper.EndType, level int) *drv.Scope {
 	var w offWorker
 	var buf Path
 	var cfgs []strokeCfg
 	for _, d := range deltas {
-		for _, et := range []clipper.EndType{clipper.Joined, clipper.Butt, clipper.SquareET, clipper.RoundET} {
+		for _, et := range ends {
 			for _, jt := range []clipper.JoinType{clipper.Miter, clipper.Square, clipper.Bevel, clipper.Round} {
 				cfgs = append(cfgs, strokeCfg{d, jt, et})
 			}
 		}
 	}
-	return &drv.Scope{Name: fmt.Sprintf("stroke/P(%d,%d)/%s", k, n, e.Name), Level: level, Size: enum.PathCount(k, n),
+	name := fmt.Sprintf("stroke/P(%d,%d)/%s", k, n, e.Name)
+	if len(ends) != len(c10AllEnds) {
+		name += fmt.Sprintf("/end types %v", ends)
+	}
+	return &drv.Scope{Name: name, Level: level, Size: enum.PathCount(k, n),
 		Show: func(idx uint64) any {
-			return map[string]any{"line": pathLit(enum.UnrankPath(idx, k, n, e, nil)), "configs": fmt.Sprintf("deltas %v x 4 end types x 4 join types", deltas)}
+			return map[string]any{"line": pathLit(enum.UnrankPath(idx, k, n, e, nil)), "configs": fmt.Sprintf("deltas %v x end types %v x 4 join types", deltas, ends)}
 		},
 		Run: func(c *drv.Ctx, idx uint64) {
 			buf = enum.UnrankPath(idx, k, n, e, buf)
@@ -305,19 +315,51 @@ func c10MultiScope(e enum.Embed, k, n int, deltas []float64, level int) *drv.Sco
 		}}
 }
 
+// c10HugePointScope: a single point far outside the float64-exact range: the square / circle around it is built by
+// adding small offsets to the integer centre, so it must come out as exact as around a small centre.
+func c10HugePointScope() *drv.Scope {
+	centres := []Pt{{X: 1<<53 + 1, Y: 1<<53 + 3}, {X: 1<<58 + 7, Y: -(1<<58 + 5)}, {X: -(1<<60 + 3), Y: 1<<60 + 1}, {X: 1<<58 + 7, Y: 12}}
+	ds := []float64{0.5, 1, 3, 7.5, 12, 30}
+	var w offWorker
+	return &drv.Scope{Name: "stroke/single point at |centre| up to 2^60", Level: 1, Size: uint64(len(centres) * len(ds)),
+		Show: func(idx uint64) any {
+			return map[string]any{"point": centres[idx%uint64(len(centres))], "delta": ds[idx/uint64(len(centres))]}
+		},
+		Run: func(c *drv.Ctx, idx uint64) {
+			ctr, d := centres[idx%uint64(len(centres))], ds[idx/uint64(len(centres))]
+			for _, et := range c10AllEnds {
+				for _, jt := range []clipper.JoinType{clipper.Miter, clipper.Square, clipper.Bevel, clipper.Round} {
+					cfg := strokeCfg{d, jt, et}
+					out := clipper.InflatePaths64(Paths{{ctr}}, d, jt, et)
+					c.Exec(1)
+					c.Output(enum.HashPaths(out))
+					// exact integer translation back to the origin, then the ordinary single-point oracle
+					back := clipper.TranslatePaths64(out, -ctr.X, -ctr.Y)
+					kind, detail, _ := c10Check(&w, Path{{X: 0, Y: 0}}, back, cfg)
+					if kind != "" {
+						c.Fail(kind, cfg.String(), "%s: %s; point %v, result translated back to the origin %v", cfg.String(), detail, ctr, back)
+					}
+				}
+			}
+			c.Nontriv()
+		}}
+}
+
 func init() {
 	drv.Register(&drv.Check{
 		ID:    "C10",
 		Title: "Open-path offsetting produces the stroke of half-width delta",
-		Rule: "every polyline of 1-3 (quick) / 1-4 (thorough) points over L(4) at stride 20 (duplicates, collinear runs and 180-degree reversals are members), axis-aligned and sheared, x end types {Joined, Butt, Square, Round} x 4 join types x delta in {0.5, 1, 3, 7.5, 12}, plus three paths per call (a point, a line of P(3,3), its shifted copy: each part of the result is held against its own path); " +
+		Rule: "every polyline of 1-3 (quick) / 1-4 (thorough) points over L(4) at stride 20 (duplicates, collinear runs and 180-degree reversals are members), axis-aligned and sheared, x end types {Joined, Butt, Square, Round} x 4 join types x delta in {0.5, 1, 3, 7.5, 12}, plus three paths per call (a point, a line of P(3,3), its shifted copy: each part of the result is held against its own path), plus every 4-vertex polyline over L(3) with Joined and Butt ends (quick), plus a single point at centres up to 2^60 in magnitude (result translated back exactly); " +
 			"oracle on a pitch-1 witness lattice with exact winding of the result and float64 distances (1e-6 guard): a point whose foot on a segment is interior and whose normal distance is <= delta - tol is inside (Joined: closing segment included); a point farther than k*delta + tol from the line is outside; Square ends: the delta-tol square beyond each end is inside; Round ends: the delta-tol disc is inside; Butt ends: a point more than tol beyond an end and farther than k*delta+tol from the rest of the line is outside; a single point: square (disc for Round ends) of radius delta-tol inside, outside beyond sqrt2*delta+tol (delta+tol); result canonical. tol = 2 + arc tolerance. non-trivial = line for which some configuration has a point that must be inside",
 		Assumptions:      []string{"<= 4 points; float64 distances; witness pitch 1"},
 		RequiredCounters: []string{"lines_with_an_inside_requirement", "multi_path_calls_with_an_inside_requirement"},
 		Scopes: func(tier string) []*drv.Scope {
 			ds := []float64{0.5, 1, 3, 7.5, 12}
 			out := []*drv.Scope{c10Scope(enum.Eax20, 4, 1, ds, 1), c10Scope(enum.Eax20, 4, 2, ds, 2), c10Scope(enum.Esh20, 4, 2, ds, 2), c10Scope(enum.Eax20, 4, 3, []float64{1, 7.5}, 3),
-				c10MultiScope(enum.Eax20, 3, 3, []float64{7.5}, 3)}
+				c10MultiScope(enum.Eax20, 3, 3, []float64{7.5}, 3), c10HugePointScope()}
 			if tier == "quick" {
+				// 4-vertex polylines: the smallest even vertex count whose Joined stroke has a middle segment
+				out = append(out, c10ScopeET(enum.Eax20, 3, 4, []float64{3, 7.5}, []clipper.EndType{clipper.Joined, clipper.Butt}, 4))
 				return out
 			}
 			out = append(out, c10Scope(enum.Eax20, 4, 3, ds, 3), c10Scope(enum.Esh20, 4, 3, ds, 3), c10Scope(enum.Eax20, 4, 4, []float64{0.5, 3, 7.5}, 4), c10Scope(enum.Esh20, 4, 4, []float64{7.5}, 4))
